@@ -106,6 +106,29 @@ fn c03_case(data: &[u8], st: &mut Stats) -> PResult {
         }
     };
     st.class(&format!("origin:{}", tag));
+    // a caller may have used the question getters before iterating (they fill a cache)
+    let warm = src.below(4);
+    if warm > 0 {
+        let pp2 = &mut pp;
+        let r = catch(|| match warm {
+            1 => {
+                let _ = pp2.question_raw0().map(|q| q.0.len());
+            }
+            2 => {
+                let _ = pp2.question();
+                let _ = pp2.question_raw().map(|q| q.0.len());
+            }
+            _ => {
+                let _ = pp2.qtype_qclass();
+                let _ = pp2.question_raw0().map(|q| q.0.len());
+                let _ = pp2.question();
+            }
+        });
+        if let Err(pm) = r {
+            fail!(format!("C03 getter-panic {}", panic_sig(&pm)), "{} packet={}", pm, hex_abbrev(&bytes));
+        }
+        st.class("question-cache-warm-before-walks");
+    }
     let r = catch(|| check_walks(&mut pp, &d, &bytes, order, "C03"));
     match r {
         Err(pm) => fail!(format!("C03 walk-panic {}", panic_sig(&pm)), "panic={} packet={} decoded={}", pm, hex_abbrev(&bytes), d.msg.show()),
@@ -197,7 +220,7 @@ pub fn check_c03(ctx: &Ctx, known: &KnownFindings) -> Report {
     let prop = (1500usize, c03_case);
     let r = drive(&prop, ctx.cases(600_000, 8_000_000), ctx, 3, &ks);
     rep.absorb(r);
-    rep.require(&["opt:Absent", "opt:Only", "opt:First", "opt:Middle", "opt:Last", "ptr-depth:0", "ptr-depth:1", "ptr-depth:2", "ptr-depth:3", "origin:valid", "origin:survivor", "records>=30", "len>16383"]);
+    rep.require(&["opt:Absent", "opt:Only", "opt:First", "opt:Middle", "opt:Last", "ptr-depth:0", "ptr-depth:1", "ptr-depth:2", "ptr-depth:3", "origin:valid", "origin:survivor", "records>=30", "len>16383", "question-cache-warm-before-walks"]);
     rep
 }
 
